@@ -177,7 +177,7 @@ def gen_nat_case(rng, ctx):
         ctx.dist("ports:hash-preimage-neighbours")
     steps = []
     tmpl = rng.choice(["inverse", "inverse", "inverse2", "sync", "sync", "sync-idem", "mixed", "mixed", "clean-absent",
-                       "setup-twice", "daemon"])
+                       "setup-twice", "daemon", "sync-same-name", "sync-same-name"])
     ctx.dist("nat-template:" + tmpl)
     if tmpl != "sync" and rng.random() < 0.7:
         steps.append(dict(op="ensure_basic"))
@@ -198,6 +198,13 @@ def gen_nat_case(rng, ctx):
         steps += [dict(op="clean", ports=A), dict(op="setup", ports=A), dict(op="clean", ports=A), dict(op="clean", ports=A)]
     elif tmpl == "setup-twice":
         steps += [dict(op="setup", ports=A), dict(op="setup", ports=A), dict(op="clean", ports=A)]
+    elif tmpl == "sync-same-name":
+        # a stale chain with the SAME name as an active port but other content: the pod was re-created under the same name with
+        # another IP (the chain name hashes host port, protocol, container port and pod name only) while galaxy was down
+        A2 = [dict(p, podIP="10.9.%d.%d" % (rng.randrange(1, 200), rng.randrange(2, 250))) for p in A]
+        steps += [dict(op="setup_all", ports=A + B), dict(op="setup_all", ports=A2 + rng.choice([B, [], C]))]
+        if rng.random() < 0.5:
+            steps += [dict(op="setup", ports=C), dict(op="setup_all", ports=A + C)]
     elif tmpl == "daemon":
         steps += [dict(op="setup_all", ports=A + B), dict(op="setup", ports=C), dict(op="clean", ports=A),
                   dict(op="setup_all", ports=B + C), dict(op="setup_all", ports=B + C), dict(op="clean", ports=C)]
